@@ -31,12 +31,17 @@ def run_coqcases(chk, pid, runner, tier, seed, workdir, log, only_key):
         cmd = [exe, "-seed", str(seed), "-tier", tier, "-out", outs[i]] + runner.get("args", [])
         if nsh > 1:
             cmd += ["-shard", str(i), "-nshards", str(nsh)]
-        return chk.run(cmd, cwd=workdir, timeout=runner.get("timeout", 1800))
+        return chk.run(cmd, cwd=workdir, timeout=runner.get("timeout", 420 if tier == "quick" else 5400))
 
     with cf.ThreadPoolExecutor(max_workers=nsh) as ex:
         rs = list(ex.map(launch, range(nsh)))
     for r in rs:
         log.append(("harness " + name, r.returncode, (r.stdout[-1000:] + r.stderr[-3000:])))
+        if r.returncode == -9 and "TIMEOUT" in r.stderr:
+            res["failures"].append({"kind": "correspondence", "theorem_or_correspondence": runner["corr"],
+                                    "detail": "harness did not finish within its time limit (the code under test hangs, spins or has become far slower): " + r.stderr[-800:],
+                                    "signature": "harness-timeout", "found_failing_input": False})
+            return res
         if r.returncode != 0:
             res["failures"].append({"kind": "correspondence", "theorem_or_correspondence": runner["corr"],
                                     "detail": "harness crashed: " + r.stderr[-3000:], "signature": "harness-crash:" + r.stderr[-300:],
